@@ -744,9 +744,14 @@ pub(crate) fn add_model<P: ProtoModel>(
     executor: &Executor,
     abort_signal: &Signal,
     model_names: &mut Vec<String>,
+    observers: &mut Vec<(String, Box<dyn ChannelObserver>)>,
 ) {
     #[cfg(feature = "tracing")]
     let span = tracing::span!(target: env!("CARGO_PKG_NAME"), tracing::Level::INFO, "model", name);
+
+    // Register a mailbox observer for deadlock reporting; this must be done for
+    // sub-models as well.
+    observers.push((name.clone(), Box::new(mailbox.0.observer())));
 
     let mut build_cx = BuildContext::new(
         &mailbox,
@@ -755,6 +760,7 @@ pub(crate) fn add_model<P: ProtoModel>(
         executor,
         abort_signal,
         model_names,
+        observers,
     );
     let model = model.build(&mut build_cx);
 
